@@ -55,7 +55,7 @@ private:
     bool _is_prime(uint32_t n) const noexcept {
         for (auto d : _primes) {
             DSPLIB_VERIF_PRIME_STEP();
-            if (d * d > n) {
+            if (uint64_t(d) * d > n) {
                 break;
             }
             if (n % d == 0) {
@@ -109,7 +109,7 @@ bool isprime(uint32_t n) noexcept {
 
     PrimesGenerator gen;
     auto d = gen.current();
-    while (d * d <= n) {
+    while (uint64_t(d) * d <= n) {
         DSPLIB_VERIF_PRIME_STEP();
         if (n % d == 0) {
             return false;
@@ -128,7 +128,7 @@ arr_int factor(uint32_t n) {
     std::vector<int> res;
     PrimesGenerator gen;
     uint32_t d = gen.current();
-    while (d * d <= n) {
+    while (uint64_t(d) * d <= n) {
         DSPLIB_VERIF_PRIME_STEP();
         while (n % d == 0) {
             n /= d;
